@@ -180,7 +180,12 @@ def main(argv=None):
     req_reach = getattr(mod, "REQUIRED_REACH", [])
     if req_reach and m["extra"].get("reach_functions_entered", {}).get("count", 0) > 0 and a.replay is None:
         seen = m["extra"].get("reach_calls", {})
-        miss = [r for r in req_reach if r not in seen]
+        def _reached(r):
+            # matched by method name within the package directory: WHICH class or module defines a public entry point is the
+            # implementation's business (an override in a subclass, a helper module)
+            pkg, name = r.split("/")[0], r.split(":")[1].split(".")[-1]
+            return any(k.startswith(pkg + "/") and k.split(":")[1].split(".")[-1] == name for k in seen)
+        miss = [r for r in req_reach if not _reached(r)]
         m["extra"]["required_entry_points_reached"] = {"required": len(req_reach), "reached": len(req_reach) - len(miss)}
         if miss:
             m["inconclusive"].append("anchored entry points never entered by the first shard's workload: %s" % ", ".join(miss))
